@@ -25,8 +25,8 @@ claim("C04",
   "sequential consistency; capacities from the listed set; cursor overflow at 2^63 excluded; concurrent family uses cursor phase 0..255",
   "DESIGN.md 9/C04", True)
 claim("C05",
-  "Real put, wakeUpPeer (fast path through writeEventData to a counting eventConn, slow path through sendCh), markWorking/markNotWorking and handlePolling (real getStream on an empty table) under a symbolic schedule: when producers are done, the event loop is idle and no notification is in flight, the queue is empty; at most one notification per accepted element.",
-  "sequential consistency; elements carry status=closed so the drain loop body is `continue`; the send loop's write of queued polling events is abstracted as 'in flight'; channel contents are counts",
+  "Real put, wakeUpPeer (fast path through writeEventData to a counting eventConn, slow path through sendCh), markWorking/markNotWorking and handlePolling (real getStream on an empty table) under a symbolic schedule: when producers are done, the event loop is idle and no notification is in flight, the queue is empty; at most one notification per accepted element. Through the real sessions (H_SM_wakewindow): a Flush stopped at every synchronisation point (between its queue put and its wake-up among others) while the server's event loop handles a late polling event and drains the queue, a further message follows: no element is in the queue without a polling event under way. Sync-point hook family: the main call runs sequentially on the real code and is stopped in front of its k-th synchronisation operation (atomic, lock acquisition, channel operation; k is enumerated) while a closure standing for the other goroutines / the peer runs to completion.",
+  "sequential consistency; elements carry status=closed so the drain loop body is `continue`; the send loop's write of queued polling events is abstracted as 'in flight'; channel contents are counts; the session-level harness explores ONE preemption per run",
   "DESIGN.md 9/C05", True)
 claim("C15",
   "Stream-pool ring (push/pop): one inductive step from an arbitrary valid ring state (64-bit cursors symbolic, capacity from a listed set) with a symbolic operation sequence against a FIFO model; SessionManager.GetStream/PutBack over the session model: histories of get/request/deliver/answer/read/put-back/peer-close by two callers: every stream handed out is open, on a live session, carries no old bytes, is clean, is not held by the other caller; active-stream count == held + pooled after every step. One genuine defect found and fixed (discarded pooled streams were not closed).",
@@ -42,20 +42,20 @@ claim("C06",
   "shape bounds as in evidence (calls, sizes, configurations); Session.waitForSend is stubbed to an ordered wire; reads never exceed what was delivered (blocking reads are C11)",
   "DESIGN.md 15.3/C06")
 claim("C07",
-  "Session model histories (real OpenStream/WriteBytes/Flush/handleEvents/ReadBytes/Close on two real sessions over one buffer manager and a cross-wired queue pair): a stream only ever reads bytes written to it, in flush order, across shared-memory and fallback transport; reads after a peer close drain what was flushed before reporting the end.",
-  "sequential histories only (one step at a time): the concurrent orderings named in the property (close overtaking data while another stream keeps the consumer busy) are NOT covered; 1-2 streams",
+  "Session model histories (real OpenStream/WriteBytes/Flush/handleEvents/ReadBytes/Close on two real sessions over one buffer manager and a cross-wired queue pair): a stream only ever reads bytes written to it, in flush order, across shared-memory and fallback transport; reads after a peer close drain what was flushed before reporting the end. Control events pass through one reused connection read buffer per direction (fallback payloads must not alias it).",
+  "sequential histories only (one step at a time) plus the single-preemption windows of H_SM_flushwindow / H_SM_wakewindow: the concurrent orderings named in the property are NOT covered beyond the recorded finding F-CLOSEOVERTAKE; 1-2 streams",
   "DESIGN.md 15.3/C07")
 claim("C08",
   "ReadBytes/Peek results are remembered across further reads of every kind and across unrelated allocate/scribble/recycle activity on the same buffer manager: contents stay equal to the model bytes and the slot a zero-copy result lives in is never on its class's free chain until ReleasePreviousRead; afterwards all buffers are available again.",
   "single stream; the interference is a harness loop over the real pop/recycleBuffer; close/late-data interplay is not covered",
   "DESIGN.md 15.3/C08")
 claim("C09",
-  "Session model histories of up to L real API steps on 1-2 streams (write+flush of sizes that use one slice, several slices or the socket fallback; deliver either direction; reads; release; close on either end at any point; queue-full), then wind-down: both ends close everything, all events are delivered, and every size class must again have its full free count with a consistent free chain.",
-  "sequential histories (no concurrency between the steps); callback mode and pooled streams are not in this harness (pool: see C15)",
+  "Session model histories of up to L real API steps on 1-2 streams (write+flush of sizes that use one slice, several slices or the socket fallback; deliver either direction; reads; release; close on either end at any point; queue-full), then wind-down: both ends close everything, all events are delivered, and every size class must again have its full free count with a consistent free chain. Flush-window family (H_SM_flushwindow): with the send queue full a further Flush enters its retry loop and is stopped at every synchronisation point while the server consumes the queue or closes the stream (close delivered to the client): Flush returns a documented result, leaves nothing buffered, and the wind-down census holds. Sync-point hook family: the main call runs sequentially on the real code and is stopped in front of its k-th synchronisation operation (atomic, lock acquisition, channel operation; k is enumerated) while a closure standing for the other goroutines / the peer runs to completion.",
+  "sequential histories plus ONE preemption of a Flush in its retry loop; callback mode and pooled streams are not in this harness (pool: see C15); timers are modelled as expired, a select takes ready non-timer cases first",
   "DESIGN.md 15.3/C09")
 claim("C10",
-  "Same histories: stream state only moves forward (monitor after every step); after a local Close the stream is closed, absent from the session, Flush fails with ErrStreamClosed and drops its data, reads fail; after delivery the peer is not open any more and reads report the end after draining; repeated Close returns nil; no active stream is left on either side after wind-down.",
-  "synchronous mode only, sequential histories: Close from inside OnData, simultaneous closes and the callback reports (OnLocalClose/OnRemoteClose) are NOT covered",
+  "Session model histories: stream state only moves forward (monitor after every step); after a local Close the stream is closed, absent from the session's stream table and stays absent (a close notification must not re-create it), Flush fails with ErrStreamClosed and drops its data, reads fail; after delivery the peer is not open any more and reads report the end after draining; repeated Close returns nil; no active stream is left on either side after wind-down. Callback mode (H_C20_inline, H_C20_window): Close from inside OnData (after consuming everything or one byte), the peer's Close arriving while OnData runs or at any synchronisation point of the callback goroutine: state final, exactly one close report, peer notified - with KNOWN FINDINGS F-CBCLOSE (Close inside OnData: no report, peer not notified), F-CLOSEOVERTAKE, F-ZOMBIE.",
+  "sequential histories and single-preemption windows; simultaneous Close calls on both ends from concurrent goroutines are NOT covered beyond those; known findings are matched by exact assertion id / harness history predicate",
   "DESIGN.md 15.3/C10")
 claim("C13",
   "Real handleEvents and every protocol handler (polling, stream close, fallback data, hot restart incl. the posted lambda and SessionManager.handleEvent/handleSessionManagerHotRestart, hot restart ack) on an arbitrary byte string (length = shape, bytes symbolic) for four session roles: no panic (index, slice, nil, makeslice, type assertion, nil func), consumed within the buffer. Two genuine defects were found and fixed (known_findings.json).",
@@ -72,20 +72,20 @@ claim("C19",
 
 claim("C16",
   "Decidable fragment (bookkeeping): real Listener.HotRestart / Session.hotRestart / handleHotRestartAck / checkHotRestart / resetState with acknowledgements in any order, missing, or carrying a foreign epoch: one request per session, a second request is rejected while in progress, a foreign epoch changes no field, the ack count never goes negative, and the watcher always leaves the hot-restart state (done when every ack arrived, reset on timeout). Client side: real handleHotRestart + posted lambda + handleSessionManagerHotRestart + SessionManager.checkHotRestart with a stubbed newClientSession that may fail: a stale epoch changes nothing, moved pools carry a session of the announced epoch, old sessions are kept unclosed, one ack per session when all moved, the manager leaves the hot-restart state.",
-  "tickers deliver two ticks and then the paired timeout fires (time is not modelled otherwise); newClientSession is a stub: that the new session reaches the NEW server and that GetStream works at every moment are NOT covered; goroutines are run by the harness at one point",
+  "tickers deliver two ticks and then the paired timeout fires (time is not modelled otherwise); newClientSession is a stub that may fail (symbolic): that the new session reaches the NEW server and that GetStream works at every moment are NOT covered; server side: the watcher is run by the harness; client side: the watcher goroutine the manager really starts is recorded with its path condition and run when the events have been handled (go_policy defer; natively the real goroutine is awaited)",
   "DESIGN.md 15.3/C16")
 
 claim("C11",
   "Sequential fragment: a blocking call whose releasing event has already happened returns at once with the right result (enough data -> nil; peer close -> drained then ErrEndOfStream; local close -> closed-stream error; session close -> error and AcceptStream returns; deadline -> ErrTimeout, and no timeout when data is there; Flush returns although the queue stays full). In addition every sequential harness of this tree carries 'noblock' obligations on every lock, channel, select and WaitGroup wait it reaches.",
-  "NOT covered: the interleaving of the releasing event with the caller entering its wait (missed-notification windows), elapsed time ('within a bounded time', 'never early'), handshake time-outs; timers are modelled as expired, selects take the first ready case in source order",
+  "NOT covered: the interleaving of the releasing event with the caller entering its wait (missed-notification windows) except for Flush's retry loop (C09/C14 flush window), elapsed time ('within a bounded time', 'never early'), handshake time-outs; timers are modelled as expired, a select takes ready non-timer cases first and a timer case only when nothing else is ready",
   "DESIGN.md 15.3/C11")
 claim("C14",
-  "Containment and resource census over an OS model (sequential): shared memory created by the real initMemManager (memfd) and mapped by the real mappingQueueManagerMemfd / getGlobalBufferManagerWithMemFd; one stream with a message in flight / delivered / partly read; then the connection reports remote close, or Close, or exitErr; the posted teardown lambdas run: nothing panics, the session is closed, Close is idempotent and the teardown is posted once, pending and later stream calls fail, exactly one close callback, no new stream, the peer session closes too, and the OS model's census of descriptors and mappings is back to zero.",
-  "NOT covered: Close concurrent with traffic (use-after-unmap races), a really killed process, real /proc census, the /dev/shm file back-end; OS model: Mmap of the same fd yields the same region, descriptors received over the socket are modelled as extra references",
+  "Containment and resource census over an OS model (sequential): shared memory created by the real initMemManager (memfd) and mapped by the real mappingQueueManagerMemfd / getGlobalBufferManagerWithMemFd; one stream with a message in flight / delivered / partly read; then the connection reports remote close, or Close, or exitErr; the posted teardown lambdas run: nothing panics, the session is closed, Close is idempotent and the teardown is posted once, pending and later stream calls fail, exactly one close callback, no new stream, the peer session closes too, and the OS model's census of descriptors and mappings is back to zero. Deferred work (H_C14_lambdas): the real epollDispatcher.post/runLambda with lambdas posted before and during a running batch: each runs exactly once, none is left pending. Pending call (H_SM_flushwindow, adversary 'session death'): a Flush in its queue-full retry loop stopped at every synchronisation point while the session is closed and its teardown lambda runs (queue manager released): the Flush returns an error, leaves nothing buffered, later reads fail, nothing panics. Sync-point hook family: the main call runs sequentially on the real code and is stopped in front of its k-th synchronisation operation (atomic, lock acquisition, channel operation; k is enumerated) while a closure standing for the other goroutines / the peer runs to completion.",
+  "NOT covered: more than one preemption, Close concurrent with traffic on the raw memory (use-after-unmap), a really killed process, real /proc census, the /dev/shm file back-end; OS model: Mmap of the same fd yields the same region, descriptors received over the socket are modelled as extra references; in the session model the queue memory is harness memory (unmap stubbed)",
   "DESIGN.md 15.3/C14")
 claim("C20",
-  "Callback mode with the callback goroutine run to completion at the point where fillDataToReadBuffer starts it (one schedule): for every message size, delivery grouping and consumption pattern (everything / one byte per call / everything and Close inside OnData) and peer close: OnData never nests, bytes are offered in order and never twice, at quiescence every flushed byte has been offered and nothing is left in the receive buffer or pending list, nothing is offered after close.",
-  "NOT covered: the interleavings of message arrivals on the event loop with a running callback (the callbackInProcess hand-off windows named in the property) - the engine's thread model does not cover Go-heap state shared between goroutines; this is the single-schedule data path only",
+  "Callback mode with harness-scheduled goroutines: gopool.Go is replaced (model and native replay) by a recorder, the harness runs each started callback goroutine to completion right after the event or after later arrivals; per invocation OnData consumes everything / one byte / closes, and in further modes the peer flushes another message or closes WHILE OnData runs (the event loop handles it). Window family (H_C20_window): the callback goroutine is stopped in front of every synchronisation operation (flag store, close-state load, re-check CAS, pending-list lock, ...) while the event loop handles another arrival or the peer's close. Oracles: OnData never nests, bytes are offered in order and never twice, at quiescence every flushed byte has been offered and nothing is left in the receive buffer or pending list, no callback goroutine is left unstarted, the in-process flag is clear, nothing is offered after a local Close. One genuine defect found and fixed (F-CBLATE: data flushed before the peer's close was dropped when the close was handled first). Sync-point hook family: the main call runs sequentially on the real code and is stopped in front of its k-th synchronisation operation (atomic, lock acquisition, channel operation; k is enumerated) while a closure standing for the other goroutines / the peer runs to completion.",
+  "ONE burst of event-loop activity per run at a synchronisation point of the callback goroutine (or inside OnData); two or more preemptions, and OnData running in parallel with itself through a second real goroutine, are outside the model; data-race freedom of Go-heap state is assumed",
   "DESIGN.md 15.3/C20")
 
 NOT_APPLICABLE = {
